@@ -146,6 +146,7 @@ pub struct RawRecipe {
 fn raw_num() -> impl Strategy<Value = RawNum> + Clone {
     prop_oneof![
         4 => (0u16..2000).prop_map(RawNum::Int),
+        1 => (0u16..3).prop_map(RawNum::Int),
         2 => (0u16..300, 0u8..DEC_FRACS.len() as u8).prop_map(|(a, b)| RawNum::Dec(a, b)),
         2 => (0u8..20, 1u8..17).prop_map(|(a, b)| RawNum::Frac(a, b)),
         1 => (1u8..20, 0u8..16, 1u8..17).prop_map(|(w, a, b)| RawNum::Mixed(w, a, b)),
